@@ -167,6 +167,38 @@ def run_installation(job):
                       f"at{gen} zone{zid}.set_damper_percentage({p})", f"at{gen}:zone.set_damper_percentage")
     rec, fr = cc.issue(w, w.at.check_for_updates)
     judge(rec, fr, "version-request", lambda r: None, f"at{gen} check_for_updates()", f"at{gen}:check_for_updates", ext=True)
+    # deferred transmission: the same calls issued while the link is down are queued and go out after the
+    # re-connection, in between the client's own refresh requests; they must still mean what was asked
+    ac = acs[-1]
+    a = ac.ac_id
+    z = ac.zones[0] if ac.zones else None
+    deferred = [(lambda: ac.set_power(A.AcPowerControl.TURN_ON), "ac-control",
+                 lambda r: cc.match_ac_control(gen, r, cc.ac_intent(a, power="on")), f"ac{a}.set_power(TURN_ON)"),
+                (lambda: ac.set_mode(A.AcMode.COOL), "ac-control",
+                 lambda r: cc.match_ac_control(gen, r, cc.ac_intent(a, mode="cool")), f"ac{a}.set_mode(COOL)"),
+                (lambda: ac.clear_quick_timer(A.AcTimerType.ON_TIMER), "timer-control",
+                 lambda r: cc.match_timer_control(gen, r, a, "on", cc.timer_state(None), timers_reported[a]["off"]), f"ac{a}.clear_quick_timer(ON)")]
+    if z is not None:
+        zid = z.zone_id
+        deferred += [(lambda: z.set_power(A.ZonePowerState.ON), "zone-control",
+                      lambda r: cc.match_zone_control(gen, r, cc.zone_intent(zid, power="on")), f"zone{zid}.set_power(ON)"),
+                     (lambda: z.set_damper_percentage(35), "zone-control",
+                      lambda r: cc.match_zone_control(gen, r, cc.zone_intent(zid, setting="percent", value=35, methods=(KEEP, "percent"))),
+                      f"zone{zid}.set_damper_percentage(35)")]
+    for fn, kind, matcher, label in deferred:
+        w.net.auto = None
+        w.net.live()[-1].peer_eof()
+        w.loop.settle()
+        n0 = len(w.console.requests)
+        rec = w.call(fn, label)
+        w.loop.settle()
+        w.net.auto = "accept"
+        w.net.resolve_all(True)
+        w.loop.settle()
+        frames = [r for r in w.console.requests[n0:] if not r[2].startswith("req-")]
+        if variant == "one-mode" and rec["status"] == "ValueError":
+            continue
+        judge(rec, frames, kind, matcher, f"at{gen} {label} issued while the link was down", f"at{gen}:deferred:{label.split('.')[1].split('(')[0]}")
     # the only frames ever seen must be the ones accounted for above (nothing unsolicited from the client)
     if w.loop.exc_reports:
         bad.append((f"at{gen}:loop-exception", f"{w.loop.exc_reports[:1]}"))
